@@ -389,13 +389,19 @@ class C12World:
             return None
         if kind == 'setdefault':
             if op['v'] is None:
-                t.setdefault(op['k'])
+                r = t.setdefault(op['k'])
                 exp = snap(mk_attrs({'dtype': 'deferred'}))
             else:
                 v = mk_attrs(op['v'])
-                t.setdefault(op['k'], v)
+                r = t.setdefault(op['k'], v)
                 exp = snap(v)
             e.model.setdefault(fold(op['k']), exp)
+            if r is not None and hasattr(r, 'clone'):
+                # whatever an accessor hands out must be an independent copy (checked by the state check
+                # that follows every operation)
+                run.probe('mutate_returned')
+                r.intent = 'MUTATED'
+                r.sim_marker = 42
             self.mut(idx)
             return None
         if kind == 'update':
